@@ -182,7 +182,15 @@ def rule_definition(ctx):
                 r = leaves.cond_tests(leaves.set_norm(leaves.strip_acc(c)), pol)
                 ts += [t for t in (r or [("dead",)]) if t[0] != "survived"]
             out.append((frozenset(ts), val))
-        return out
+        # `xs.map(f).collect::<Result<_, _>>().map_err(|e| Error{..})?`: the function leaves with that error exactly when some f(x) is Err
+        for x in sym.subterms(v):
+            if isinstance(x, tuple) and x[:1] == ("try",) and len(x) == 2 and isinstance(x[1], tuple) and x[1][:2] == ("call", "Result::map_err") and len(x[1][2]) == 2:
+                src_, cl_ = x[1][2]
+                if isinstance(src_, tuple) and src_[:2] == ("call", "Iterator::map") and len(src_[2]) == 2 and isinstance(cl_, tuple) and cl_[:1] == ("closure",) \
+                        and isinstance(cl_[2], tuple) and cl_[2][:1] == ("ctor",) and str(cl_[2][1]).startswith("ProofOutlineError::"):
+                    elem_ = leaves._apply(src_[2][1], ("each", leaves.norm(src_[2][0])))
+                    out.insert(0, (frozenset([("is", leaves.norm(elem_), "Result::Err")]), ("ctor", "Result::Err", (("0", cl_[2]),))))
+        return [o for o in out if o[1] != ("never",)]
     good = shape()
     rets = run(good)
     UNIQ = leaves.norm(("call", "FromIterator::from_iter", (VS,)))
@@ -202,7 +210,8 @@ def rule_definition(ctx):
         "DuplicatedVariables": lambda ts: ts == frozenset([("cond", ("bin", "Lt", ("call", "IndexSet::len", (UNIQ,)), ("call", "Vec::len", (VS,))), True)]),
         "TermsInDefinition": lambda ts: ts == frozenset([("is", TF, "Result::Err")]),
         "DefinedPredicateVariableListMismatch": lambda ts: len(ts) == 1 and list(ts)[0][0] == "cond" and list(ts)[0][2] is False and list(ts)[0][1][:2] == ("bin", "Eq") and
-        UNIQ in list(ts)[0][1][2:] and any("insert" in repr(x) and repr(TF) in repr(x) for x in list(ts)[0][1][2:]),
+        UNIQ in list(ts)[0][1][2:] and any(("insert" in repr(x) and repr(TF) in repr(x)) or ("TryFrom::try_from" in repr(x) and repr(TERMS) in repr(x) and "Iterator::map" in repr(x))
+                                           for x in list(ts)[0][1][2:]),
         "TakenPredicate": lambda ts: ts == frozenset([("cond", ("call", "IndexSet::contains", (TK, PRED)), True)]),
         "FreeRhsVariables": lambda ts: ts in (frozenset([nsub(("call", "Formula::free_variables", (BODY,)), UNIQ)]),
                                               frozenset([("cond", ("call", "IndexSet::is_subset", (("call", "Formula::free_variables", (BODY,)), UNIQ)), False)])),
@@ -232,6 +241,19 @@ def rule_definition(ctx):
         if outs != [mal(node)]:
             wrong[nm] = [sym.pretty(x)[:80] for x in outs]
     ctx.add("TPL", "definition:shape", not wrong, site, "accepted only: forall V (atom <-> body); everything else is MalformedDefinition", construct=wrong or None)
+
+
+def _is_data_of(pat, arg):
+    """arg is the `data` of the value bound by the let pattern: `x.data` for `let x = ..`, or the binding of the field `data` in a struct pattern
+    (`let WithWarnings { data: predicate, .. } = ..`)"""
+    if pat.get("p") == "Bind":
+        return hq.field_path(arg) == pat.get("name", "?") + ".data"
+    if pat.get("p") == "Struct":
+        for f in pat.get("fields", []):
+            if f.get("name") == "data":
+                bound = [b_["id"] for b_ in pat_bindings(f["pat"])]
+                return len(bound) == 1 and local_id_of(arg) == bound[0]
+    return False
 
 
 def rule_from_specification(ctx):
@@ -271,7 +293,7 @@ def rule_from_specification(ctx):
         ins = hq.calls(st[1], method="insert") if len(st) > 1 else []
         tk_local = local_of(c0[0]["args"][0]) if len(c0) == 1 else None
         ok = len(c0) == 1 and hq.is_try_propagated(pm, c0[0]) and tk_local in PARAMS and len(ins) == 1 and local_of(ins[0]["recv"]) == tk_local \
-            and st[0]["k"] == "LetStmt" and hq.field_path(ins[0]["args"][0]) == st[0]["pat"].get("name", "?") + ".data"
+            and st[0]["k"] == "LetStmt" and _is_data_of(st[0]["pat"], ins[0]["args"][0])
         detail = "stmt0: %s; stmt1: %s" % (hq.render(hq.stmt_expr(st[0]))[:80] if st else None, hq.render(hq.stmt_expr(st[1]))[:80] if len(st) > 1 else None)
         recv_ok = c0 and hq.field_path(c0[0]["recv"]) is not None and hq.field_path(c0[0]["recv"]).endswith(".formula")
         ok = ok and bool(recv_ok)
